@@ -89,7 +89,18 @@ def _mk(engine, shape, k, letters, rebind_alpha=False, budget=200, **kw):
     return Condition(cid, _body(engine, shape, k, letters, kw), _replay(engine, shape, k, kw), budget=budget,
                      bounds=f"{engine}: {len(shape)} strings of lengths {shape} over letters {letters}, max_edits={k}"
                             + (" (alphabet constant rebound)" if rebind_alpha else ""),
-                     models=("rf", "np", "sp", "mp"), setup=_setup(letters if rebind_alpha else None))
+                     models=("rf", "np", "sp", "mp") + (("misc",) if kw.get("progress") else ()), setup=_setup(letters if rebind_alpha else None))
+
+
+def _probe_long(engine, k):
+    def run():
+        import pyrepseq
+        seqs = ["A" * 127, "A" * 128, "A" * 129, "AC" * 128, "AC" * 127 + "C", "A" * 128 + "C", "CASSLGQYF", "W" * 260, "W" * 259 + "Y"]
+        got = getattr(pyrepseq, engine)(list(seqs), max_edits=k)
+        want = hc.want_triplets(seqs, seqs, hc.lev, k, True)
+        ok, detail = hc.compare_triplets(got, want)
+        return ok, f"[long-sequence probe] {engine}(max_edits={k}) on sequences with 127-260 copies of one residue (lengths {[len(x) for x in seqs]}): {detail}"
+    return run
 
 
 def _probe_scale(engine, **kw):
@@ -112,6 +123,8 @@ def conditions(tier):
     for shape in [(1, 1), (2, 1), (1, 0)]:
         out.append(_mk("hash_based", shape, 1, "ACD", True))
     out.append(_mk("hash_based", (1, 0), 3, "AC", True))
+    out.append(_mk("hash_based", (2, 1), 1, "AC", True, progress=True))       # a progress bar changes nothing
+    out.append(_mk("hash_based", (1, 1, 1), 1, "AC", True, progress=True))
     # equal-length collections whose closest pairs need an insertion AND a deletion ('ACA' / 'CAC': lev 2, hamming 3):
     # every shortest path runs through strings shorter / longer than anything stored
     out.append(_mk("hash_based", (2, 2), 2, "AC", True))
@@ -143,6 +156,9 @@ def conditions(tier):
             out.append(_mk("kdtree", (3, 3), 3, letters, budget=2400))
             out.append(_mk("kdtree", (2, 2, 2), 2, letters, budget=2400))
         out.append(_mk("kdtree", (4, 3), 2, "AY", budget=2400))
+    for engine, k in [("kdtree", 1), ("kdtree", 2), ("hash_based", 1), ("nearest_neighbor", 2)]:
+        out.append(hc.probe_condition(f"C04/probe/{engine}/long-sequences/k={k}", f"{engine}, max_edits={k}, nine sequences of length 9-260 with 127-260 copies of one residue "
+                                      "(composition counts beyond one signed byte): exact triplet set against a brute-force Levenshtein", _probe_long(engine, k)))
     out.append(hc.probe_condition("C04/probe/hash_based/70000-sequences", "hash_based, max_edits=1, 70 006 sequences with six planted neighbour pairs: exact triplet set",
                                   _probe_scale("hash_based")))
     out.append(hc.probe_condition("C04/probe/kdtree/70000-sequences", "kdtree, max_edits=1, 70 006 sequences with six planted neighbour pairs: exact triplet set",
